@@ -173,7 +173,9 @@ def run_shard(ctx):
     try:
         rng = ctx.rng("runs")
         for i in range(conf["runs"]):
-            case = P.random_pipeline_case(rng, max_windows=30 if i % 5 else 60)
+            case = P.random_pipeline_case(rng, max_windows=30 if i % 5 else 60, many_detections=(i % 8 == 3))
+            if i % 8 == 3:
+                ctx.count("runs_with_long_bursts_of_detections")
             one(ctx, case, tmpdir)
             if ctx.out_of_time():
                 break
@@ -200,7 +202,7 @@ def inconclusive(merged, tier):
     c = merged["counters"]
     need = ["scheduled_runs", "messages_checked", "timeouts_fired", "context_switches", "line_mode_runs", "line_preemptions",
             "stress_runs", "stress_messages_checked", "observers_checked_rec", "observers_checked_print",
-            "observers_checked_regionsaver", "observers_checked_joiner", "runs_with_stream_saver"] + ["strategy_" + s for s in P.S.NAMES]
+            "observers_checked_regionsaver", "observers_checked_joiner", "runs_with_stream_saver", "runs_with_long_bursts_of_detections"] + ["strategy_" + s for s in P.S.NAMES]
     out = [f"monitor never observed {k}" for k in need if c.get(k, 0) == 0]
     if c.get("inconclusive_runs", 0) > max(3, c.get("scheduled_runs", 0) // 50):
         out.append(f"{c['inconclusive_runs']} runs hit a step/wall cap")
